@@ -83,7 +83,7 @@ impl Auth {
         let mut v: Pairs = Vec::new();
         if self.carrier != Carrier::Query {
             if q.other_carrier {
-                v.push((b"X-Amz-Algorithm".to_vec(), b"AWS4-HMAC-SHA256".to_vec()));
+                v.push((b"X-Amz-Algorithm".to_vec(), q.other_carrier_alg.clone().unwrap_or_else(|| "AWS4-HMAC-SHA256".into()).into_bytes()));
             }
             return v;
         }
@@ -157,6 +157,8 @@ pub struct Quirks {
     pub no_eq_param: Option<String>,
     /// also present the other carrier (X-Amz-Algorithm pair / an Authorization header)
     pub other_carrier: bool,
+    /// value of the X-Amz-Algorithm pair added by `other_carrier` (None = AWS4-HMAC-SHA256)
+    pub other_carrier_alg: Option<String>,
     /// presented instead of the credential (arity faults)
     pub credential_override: Option<String>,
     /// raw bytes appended to the path / query on the wire (malformed escapes)
@@ -537,8 +539,24 @@ pub fn spell_pairs(pairs: &[(Vec<u8>, Vec<u8>)], t: &mut Tape, noise: u64, permu
     o
 }
 
+/// Which parts of the request the intermediaries may re-spell (a profile that studies one
+/// component keeps the others in canonical spelling, so a disagreement is attributable).
+#[derive(Clone, Copy, Debug)]
+pub struct NoiseMask {
+    pub path: bool,
+    pub query: bool,
+    pub headers: bool,
+}
+
+pub const NOISE_ALL: NoiseMask = NoiseMask {
+    path: true,
+    query: true,
+    headers: true,
+};
+
 #[derive(Clone, Copy, Debug)]
 pub struct RenderOpts {
+    pub mask: NoiseMask,
     /// 0 = canonical spelling; higher = more benign respelling
     pub noise: u64,
     /// the target node's path mode: dot/empty-segment insertions are benign only in standard mode
@@ -550,7 +568,21 @@ pub struct RenderOpts {
 /// Render the message as it now stands (after whatever logical transformations it received).
 pub fn render(m: &Message, t: &mut Tape, o: &RenderOpts) -> Wire {
     let l = &m.logical;
-    let noise = o.noise;
+    let npath = if o.mask.path {
+        o.noise
+    } else {
+        0
+    };
+    let nquery = if o.mask.query {
+        o.noise
+    } else {
+        0
+    };
+    let nhdr = if o.mask.headers {
+        o.noise
+    } else {
+        0
+    };
     // ---- path
     let mut path: Vec<u8> = Vec::new();
     if l.segs.is_empty() {
@@ -558,7 +590,7 @@ pub fn render(m: &Message, t: &mut Tape, o: &RenderOpts) -> Wire {
     }
     for s in &l.segs {
         path.push(b'/');
-        if noise > 0 && !o.s3 {
+        if npath > 0 && !o.s3 {
             // benign structure noise (standard mode only)
             match t.below(24) {
                 0 => path.extend(b"/"),
@@ -570,11 +602,11 @@ pub fn render(m: &Message, t: &mut Tape, o: &RenderOpts) -> Wire {
                 _ => {}
             }
         }
-        path.extend(spell(s, t, noise, false, RAW_OK_PATH));
+        path.extend(spell(s, t, npath, false, RAW_OK_PATH));
     }
     if l.trailing {
         path.push(b'/');
-        if noise > 0 && !o.s3 && t.chance(12) {
+        if npath > 0 && !o.s3 && t.chance(12) {
             path.extend(b"./");
         }
     }
@@ -586,7 +618,7 @@ pub fn render(m: &Message, t: &mut Tape, o: &RenderOpts) -> Wire {
         let ap = m.auth.query_pairs(true, q);
         let mut pos = 0usize;
         for p in ap {
-            pos = if noise > 0 {
+            pos = if nquery > 0 {
                 pos + t.below(all_pairs.len() - pos + 1)
             } else {
                 all_pairs.len()
@@ -595,7 +627,7 @@ pub fn render(m: &Message, t: &mut Tape, o: &RenderOpts) -> Wire {
             pos += 1;
         }
     }
-    let mut query = spell_pairs(&all_pairs, t, noise, o.permute_pairs);
+    let mut query = spell_pairs(&all_pairs, t, nquery, o.permute_pairs);
     if let Some(sfx) = &q.query_suffix {
         if !query.is_empty() {
             query.push(b'&');
@@ -615,14 +647,14 @@ pub fn render(m: &Message, t: &mut Tape, o: &RenderOpts) -> Wire {
     if let Some(sfx) = &q.path_suffix {
         target.extend(sfx);
     }
-    if !query.is_empty() || (noise > 0 && t.chance(16)) {
+    if !query.is_empty() || (nquery > 0 && t.chance(16)) {
         target.push(b'?');
         target.extend(query);
     }
     // ---- headers
     let mut headers: Vec<(String, Vec<u8>)> = Vec::new();
     for (n, v) in &l.headers {
-        headers.push((spell_header_name(n, t, noise), space_noise(v, t, noise)));
+        headers.push((spell_header_name(n, t, nhdr), space_noise(v, t, nhdr)));
     }
     if m.auth.carrier == Carrier::Header && !q.omit.contains(&"authorization") {
         let a = &m.auth;
@@ -651,7 +683,7 @@ pub fn render(m: &Message, t: &mut Tape, o: &RenderOpts) -> Wire {
         if !q.omit.contains(&"signature") {
             push(&mut params, "Signature", a.signature.clone());
         }
-        if noise > 0 && q.dup_header_params.is_empty() && params.len() > 1 && t.chance(2) {
+        if nhdr > 0 && q.dup_header_params.is_empty() && params.len() > 1 && t.chance(2) {
             let i = t.below(params.len());
             let j = t.below(params.len());
             params.swap(i, j);
@@ -664,13 +696,13 @@ pub fn render(m: &Message, t: &mut Tape, o: &RenderOpts) -> Wire {
         if !params.is_empty() {
             v.push(' ');
         }
-        if noise > 0 && t.chance(6) {
+        if nhdr > 0 && t.chance(6) {
             v.push_str("  ");
         }
         for (i, p) in params.iter().enumerate() {
             if i > 0 {
                 v.push(',');
-                let sp = if noise > 0 {
+                let sp = if nhdr > 0 {
                     t.below(3)
                 } else {
                     1
@@ -681,19 +713,19 @@ pub fn render(m: &Message, t: &mut Tape, o: &RenderOpts) -> Wire {
             }
             v.push_str(p);
         }
-        let pos = if noise > 0 {
+        let pos = if nhdr > 0 {
             t.below(headers.len() + 1)
         } else {
             headers.len()
         };
-        let name = spell_header_name("authorization", t, noise);
+        let name = spell_header_name("authorization", t, nhdr);
         let mut block: Vec<(String, Vec<u8>)> = Vec::new();
         for (dv, before) in &q.dup_authorization {
             if *before {
                 block.push((name.clone(), dv.clone()));
             }
         }
-        block.push((name.clone(), space_noise(v.as_bytes(), t, noise)));
+        block.push((name.clone(), space_noise(v.as_bytes(), t, nhdr)));
         for (dv, before) in &q.dup_authorization {
             if !*before {
                 block.push((name.clone(), dv.clone()));
